@@ -4,6 +4,7 @@
 package valgen
 
 import (
+	"strings"
 	"fmt"
 
 	eth2spec "github.com/attestantio/go-eth2-client/spec"
@@ -352,6 +353,56 @@ func Leaves(p any) []Leaf {
 			if val.CanSet() {
 				v := val
 				out = append(out, Leaf{path, func(int) { v.SetBool(!v.Bool()) }})
+			}
+		}
+	}
+	rec(reflect.ValueOf(p), "", 0)
+	return out
+}
+
+// UintLeaf is a settable 64-bit unsigned scalar (slot, epoch, index, amount ...) inside a value.
+type UintLeaf struct {
+	Path string
+	Set  func(uint64)
+}
+
+// Uint64Leaves enumerates, in declaration order, the settable uint64-kinded scalars reachable from the
+// pointer p, except fork/format version selectors (their value decides how the rest is encoded) and
+// anything inside byte containers. The first entries are the first fixed-size fields of the value,
+// i.e. the leading bytes of its SSZ encoding.
+func Uint64Leaves(p any) []UintLeaf {
+	var out []UintLeaf
+	var rec func(val reflect.Value, path string, depth int)
+	rec = func(val reflect.Value, path string, depth int) {
+		if depth > 40 || !val.IsValid() {
+			return
+		}
+		switch val.Kind() {
+		case reflect.Interface, reflect.Pointer:
+			if !val.IsNil() {
+				rec(val.Elem(), path, depth+1)
+			}
+		case reflect.Struct:
+			if val.Type() == reflect.TypeOf(time.Time{}) || val.Type().String() == "big.Int" || val.Type().String() == "uint256.Int" {
+				return
+			}
+			for i := 0; i < val.NumField(); i++ {
+				f := val.Type().Field(i)
+				if f.IsExported() && f.Name != "Version" {
+					rec(val.Field(i), path+"."+f.Name, depth+1)
+				}
+			}
+		case reflect.Array, reflect.Slice:
+			if val.Type().Elem().Kind() == reflect.Uint8 {
+				return
+			}
+			for i := 0; i < val.Len() && i < 4; i++ {
+				rec(val.Index(i), fmt.Sprintf("%s[%d]", path, i), depth+1)
+			}
+		case reflect.Uint64:
+			if val.CanSet() && !strings.Contains(val.Type().String(), "Version") {
+				v := val
+				out = append(out, UintLeaf{path, func(x uint64) { v.SetUint(x) }})
 			}
 		}
 	}
